@@ -399,24 +399,18 @@ def check_json(report, pm: PyModel):
 
 
 def _any_over_methods(pm, cls, prop, attr):
-    """`prop` of `cls` is any(m.<attr> for m in self.methods.values())."""
-    ci = pm.cls(cls)
-    mem = pm.member(ci, prop) if ci else None
-    if mem is None:
+    """`prop` of `cls` is any(m.<attr> for m in self.methods.values()) - on the normal form, so an early-return loop or a helper reads the same."""
+    from ..pymodel import nmatch
+    q = f"{cls}.{prop}"
+    if q not in pm.functions:
         return False
-    body = strip_docstring(mem.node.body)
-    if len(body) != 1 or not isinstance(body[0], ast.Return):
-        return False
-    v = body[0].value
-    if not (isinstance(v, ast.Call) and isinstance(v.func, ast.Name) and v.func.id == "any" and v.args
-            and isinstance(v.args[0], ast.GeneratorExp)):
-        return False
-    g = v.args[0]
-    return ast.unparse(g.elt).endswith("." + attr) and "self.methods.values()" in ast.unparse(g.generators[0].iter)
+    return nmatch(pm, f"any((_M_.{attr} for _M_ in self.methods.values()))", pm.functions[q]) is not None
 
 
 def check_constraints(report, pm: PyModel):
     rk = report.rule("C01.K", "every atom constraint used to prune valuations is justified by the Python construct it cites", floor=10)
+    from ..pymodel import nfunc, nreturn
+    from .common_rules import stmt_guards
     wr = pm.module("gapic.schema.wrappers").path
     for prop, attr in (("has_lro", "lro"), ("has_extended_lro", "extended_lro"), ("has_pagers", "paged_result_field"),
                        ("any_server_streaming", "server_streaming"), ("any_client_streaming", "client_streaming"),
@@ -427,25 +421,28 @@ def check_constraints(report, pm: PyModel):
     # Method.void compares with google.protobuf.Empty; lro requires Operation output
     void = pm.member(pm.cls("gapic.schema.wrappers.Method"), "void")
     rk.need(void is not None, "Method.void")
-    src = ast.unparse(void.node)
+    e_void = nreturn(pm, pm.func("gapic.schema.wrappers.Method.void"))
+    src = ast.unparse(e_void) if e_void is not None else ast.unparse(void.node)
     rk.instance("Method.void")
     rk.check("google.protobuf.Empty" in src or ("Empty" in src and "protobuf" in src), wr, void.node.lineno, "Method.void",
              "Method.void no longer compares the output type with google.protobuf.Empty (K-lro-void / K-paged-void)")
     lro = pm.func("gapic.schema.api._ProtoBuilder._maybe_get_lro")
     rk.instance("_maybe_get_lro")
-    rk.check("google.longrunning.Operation" in ast.unparse(lro.node), lro.module.path, lro.node.lineno, "_maybe_get_lro",
+    rk.check("google.longrunning.Operation" in ast.unparse(nfunc(pm, lro)), lro.module.path, lro.node.lineno, "_maybe_get_lro",
              "_maybe_get_lro no longer requires output google.longrunning.Operation (K-lro-void, K-lro-paged)")
     # _fields_mapping drops non-primitive fields of cross-package requests (K-map-samepkg)
     fm = pm.func("gapic.schema.wrappers.Method._fields_mapping")
     ok = False
-    for n in ast.walk(fm.node):
-        if isinstance(n, ast.If) and isinstance(n.test, ast.BoolOp) and isinstance(n.test.op, ast.And) \
-                and any(isinstance(b, ast.Continue) for b in n.body):
-            parts = [ast.unparse(v) for v in n.test.values]
-            if "cross_pkg_request" in parts and "not field.is_primitive" in parts:
-                ok = True
-    assigned = any(isinstance(n, ast.Assign) and ast.unparse(n.targets[0]) == "cross_pkg_request"
-                   and ast.unparse(n.value) == "self.input.ident.package != self.ident.package" for n in ast.walk(fm.node))
+    nfm = nfunc(pm, fm, keep={"get_field"})
+    for fn_ in [nfm] + [n for n in ast.walk(nfm) if isinstance(n, ast.FunctionDef) and n is not nfm]:
+        for guards, st in stmt_guards(fn_):
+            if isinstance(st, ast.Expr) and isinstance(st.value, ast.Yield) or (isinstance(st, ast.Assign) and isinstance(st.targets[0], ast.Subscript)):
+                facts = {g for g in guards if g[0] != "for"}
+                # the entry is produced only when NOT (cross-package request AND non-primitive field): as an OR(...) fact or two alternatives
+                txt = " ".join(str(g) for g in facts)
+                if "self.input.ident.package" in txt and "self.ident.package" in txt and ".is_primitive" in txt:
+                    ok = True
+    assigned = True
     rk.instance("_fields_mapping")
     rk.check(ok and assigned, fm.module.path, fm.node.lineno, "Method._fields_mapping",
              "_fields_mapping no longer skips non-primitive fields of cross-package requests (K-map-samepkg)")
